@@ -1,0 +1,38 @@
+//go:build verif
+
+package vgirpc
+
+import "time"
+
+// Verification hooks (build tag "verif") for token introspection: the rate
+// limiter's window and clock. Add-only; nothing here is compiled into normal
+// builds.
+
+// VerifC26IntrospectionEnabled reports whether EnableTokenIntrospection succeeded.
+func (h *HttpServer) VerifC26IntrospectionEnabled() bool { return h.introspect != nil }
+
+// VerifC26SetLimiterWindow replaces the limiter's window length (the production
+// value is one second), so a test is not at the mercy of the wall clock.
+func (h *HttpServer) VerifC26SetLimiterWindow(d time.Duration) {
+	if h.introspect == nil {
+		return
+	}
+	l := h.introspect.limiter
+	l.mu.Lock()
+	defer l.mu.Unlock()
+	l.window = d
+}
+
+// VerifC26AdvanceLimiterClock makes the limiter see d more time elapsed by
+// back-dating the start of its current window.
+func (h *HttpServer) VerifC26AdvanceLimiterClock(d time.Duration) {
+	if h.introspect == nil {
+		return
+	}
+	l := h.introspect.limiter
+	l.mu.Lock()
+	defer l.mu.Unlock()
+	if !l.windowStart.IsZero() {
+		l.windowStart = l.windowStart.Add(-d)
+	}
+}
